@@ -3,10 +3,12 @@
 //! delivery, persistence, the chain, time, and crashes.
 
 pub mod chain;
+pub mod chainstyle;
 pub mod crash;
 pub mod infra;
 pub mod ledger;
 pub mod onchain;
+pub mod roundtrip;
 pub mod oracle;
 pub mod sched;
 pub mod world;
@@ -58,6 +60,11 @@ fn run_world(mut wd: World, mut rng: Option<Rng>, trace: Option<Vec<Action>>, se
 		wd.final_oracles();
 		if wd.trace.last() == Some(&Action::Liquidate) {
 			wd.wealth_oracle(&[]);
+		}
+		if wd.cfg.profile == "roundtrip" {
+			for n in 0..wd.nodes.len() {
+				wd.read_faults(n);
+			}
 		}
 	}
 	let progressed = wd.out.counters.get("event:PaymentSent").copied().unwrap_or(0)
